@@ -6,7 +6,7 @@
      copy_decays_law      : every table CopyDecay NEW OLD creates denotes OLD's table with the mother name NEW,
                             and creating it changes what no existing table denotes. *)
 From Coq Require Import String Ascii List Bool ZArith QArith Arith Lia.
-From DL Require Import Lib.Val Lib.PyDict Lib.Sort Decay.Conj Decay.ChainDict Dec.Num Dec.Tables Dec.Syntax Dec.Post Dec.Heap Dec.HeapProofs.
+From DL Require Import Lib.Val Lib.PyDict Lib.Sort Decay.Conj Decay.ChainDict Dec.Num Dec.Tables Dec.Syntax Dec.Post Dec.Heap Dec.HeapProofs Dec.HeapValues.
 Import ListNotations.
 Close Scope Q_scope.
 Open Scope string_scope.
@@ -373,4 +373,1148 @@ Proof.
   - rewrite (erase_agree (ntok s) (h_toks s) (h_toks s') t A Hb). reflexivity.
   - exact Hb.
   - intros i Hi. destruct A as [L _]. specialize (Hb i Hi). lia.
+Qed.
+
+(* ================================================================== refinement: the object-level algorithm computes the tables of
+   the value model (Dec/Post.v).  Pure descriptions of what the trees denote at each stage: *)
+Definition v_tok (k s : string) : vt := VT k (TS s).
+Definition v_particle (n : string) : vt := VN "particle" [v_tok "LABEL" n].
+Definition v_value (lit : string) : vt := VN "value" [v_tok "SIGNED_NUMBER" lit].
+Definition enc_raw (p : param) : vt := match p with PLit lit => v_value lit | PLabel s => v_tok "LABEL" s end.
+Definition v_model_children (enc : param -> vt) (m : dmodel) : list vt :=
+  match m with
+  | MLabel l => [VN "model_label" [v_tok "LABEL" l]]
+  | MName n None => [v_tok "MODEL_NAME" n]
+  | MName n (Some ps) => [v_tok "MODEL_NAME" n; VN "model_options" (map enc ps)]
+  end.
+Definition v_model (enc : param -> vt) (m : dmodel) : vt := VN "model" (v_model_children enc m).
+Definition v_line (enc : param -> vt) (d : dline) : vt :=
+  VN "decayline" (v_value (d_bf d) :: map v_particle (d_fs d) ++ (if d_photos d then [VN "photos" []] else []) ++ [v_model enc (d_model d)]).
+Definition v_decay (enc : param -> vt) (m : string) (ls : list dline) : vt := VN "decay" (v_particle m :: map (v_line enc) ls).
+Definition v_model_alias (n : string) (m : dmodel) : vt := VN "model_alias" [VN "model_label" [v_tok "LABEL" n]; v_model enc_raw m].
+
+Lemma EV_tok k v s t s' : mk_tok k v s = (t, s') -> EV s [t] s' [v_tok k v].
+Proof.
+  intros H. split; [eapply AL_tok; exact H|]. unfold mk_tok in H. inversion H; subst. simpl.
+  split; [eexists; reflexivity|]. rewrite app_nth2 by lia. rewrite Nat.sub_diag. reflexivity.
+Qed.
+
+Lemma EV_mapM {A} (f : A -> M ot) (g : A -> vt) :
+  (forall x s t s', f x s = (t, s') -> EV s [t] s' [g x]) ->
+  forall l s ts s', mapM f l s = (ts, s') -> EV s ts s' (map g l).
+Proof.
+  intros Hf. induction l as [|x r IH]; simpl; intros s ts s' H.
+  - inversion H; subst. apply EV_nil.
+  - unfold bind in H. destruct (f x s) as [y s1] eqn:E1. destruct (mapM f r s1) as [ys s2] eqn:E2.
+    unfold ret in H. inversion H; subst. change (y :: ys) with ([y] ++ ys)%list. change (g x :: map g r) with ([g x] ++ map g r)%list.
+    eapply EV_app; eauto.
+Qed.
+
+Lemma EV_particle n s t s' : mk_particle n s = (t, s') -> EV s [t] s' [v_particle n].
+Proof.
+  unfold mk_particle, bind. intros H. destruct (mk_tok "LABEL" n s) as [x s1] eqn:E. eapply EV_tree; [eapply EV_tok; exact E | exact H].
+Qed.
+Lemma EV_value n s t s' : mk_value n s = (t, s') -> EV s [t] s' [v_value n].
+Proof.
+  unfold mk_value, bind. intros H. destruct (mk_tok "SIGNED_NUMBER" n s) as [x s1] eqn:E. eapply EV_tree; [eapply EV_tok; exact E | exact H].
+Qed.
+Lemma EV_param p s t s' : mk_param p s = (t, s') -> EV s [t] s' [enc_raw p].
+Proof. destruct p; simpl; [apply EV_value | apply EV_tok]. Qed.
+
+Lemma EV_model_children m s ch s' : mk_model_children m s = (ch, s') -> EV s ch s' (v_model_children enc_raw m).
+Proof.
+  destruct m as [l|n [ps|]]; simpl; unfold bind, ret; intros H.
+  - destruct (mk_tok "LABEL" l s) as [x s1] eqn:E1. destruct (mk_tree "model_label" [x] s1) as [y s2] eqn:E2.
+    inversion H; subst. eapply EV_tree; [eapply EV_tok; exact E1 | exact E2].
+  - destruct (mk_tok "MODEL_NAME" n s) as [x s1] eqn:E1. destruct (mapM mk_param ps s1) as [os s2] eqn:E2.
+    destruct (mk_tree "model_options" os s2) as [o s3] eqn:E3. inversion H; subst.
+    change [x; o] with ([x] ++ [o])%list.
+    change [v_tok "MODEL_NAME" n; VN "model_options" (map enc_raw ps)] with ([v_tok "MODEL_NAME" n] ++ [VN "model_options" (map enc_raw ps)])%list.
+    eapply EV_app; [eapply EV_tok; exact E1|].
+    eapply EV_tree; [eapply EV_mapM; [apply EV_param | exact E2] | exact E3].
+  - destruct (mk_tok "MODEL_NAME" n s) as [x s1] eqn:E1. inversion H; subst. eapply EV_tok; exact E1.
+Qed.
+
+Lemma EV_model m s t s' : mk_model m s = (t, s') -> EV s [t] s' [v_model enc_raw m].
+Proof.
+  unfold mk_model, bind. intros H. destruct (mk_model_children m s) as [ch s1] eqn:E.
+  eapply EV_tree; [eapply EV_model_children; exact E | exact H].
+Qed.
+
+Lemma EV_line d s t s' : mk_line d s = (t, s') -> EV s [t] s' [v_line enc_raw d].
+Proof.
+  unfold mk_line, bind. intros H.
+  destruct (mk_value (d_bf d) s) as [v s1] eqn:E1. destruct (mapM mk_particle (d_fs d) s1) as [ps s2] eqn:E2.
+  assert (Hv := EV_value _ _ _ _ E1). assert (Hps := EV_mapM _ _ EV_particle _ _ _ _ E2). unfold v_line.
+  destruct (d_photos d).
+  - destruct (mk_tree "photos" [] s2) as [x sx] eqn:Ex. unfold ret in H.
+    destruct (mk_model (d_model d) sx) as [m s4] eqn:E4.
+    eapply EV_tree; [|exact H]. change (v :: ps ++ [x] ++ [m])%list with ([v] ++ ps ++ [x] ++ [m])%list.
+    change (v_value (d_bf d) :: map v_particle (d_fs d) ++ [VN "photos" []] ++ [v_model enc_raw (d_model d)])%list
+      with ([v_value (d_bf d)] ++ map v_particle (d_fs d) ++ [VN "photos" []] ++ [v_model enc_raw (d_model d)])%list.
+    eapply EV_app; [exact Hv|]. eapply EV_app; [exact Hps|].
+    eapply EV_app; [eapply EV_tree; [apply EV_nil | exact Ex] | eapply EV_model; exact E4].
+  - unfold ret in H. destruct (mk_model (d_model d) s2) as [m s4] eqn:E4.
+    eapply EV_tree; [|exact H]. change (v :: ps ++ [] ++ [m])%list with ([v] ++ ps ++ [m])%list.
+    change (v_value (d_bf d) :: map v_particle (d_fs d) ++ [] ++ [v_model enc_raw (d_model d)])%list
+      with ([v_value (d_bf d)] ++ map v_particle (d_fs d) ++ [v_model enc_raw (d_model d)])%list.
+    eapply EV_app; [exact Hv|]. eapply EV_app; [exact Hps | eapply EV_model; exact E4].
+Qed.
+
+Lemma EV_decay m ls s t s' : mk_decay m ls s = (t, s') -> EV s [t] s' [v_decay enc_raw m ls].
+Proof.
+  unfold mk_decay, bind. intros H. destruct (mk_particle m s) as [p s1] eqn:E1. destruct (mapM mk_line ls s1) as [lines s2] eqn:E2.
+  eapply EV_tree; [|exact H]. change (p :: lines) with ([p] ++ lines)%list.
+  change (v_particle m :: map (v_line enc_raw) ls) with ([v_particle m] ++ map (v_line enc_raw) ls)%list.
+  eapply EV_app; [eapply EV_particle; exact E1 | eapply EV_mapM; [apply EV_line | exact E2]].
+Qed.
+
+Lemma EV_model_alias n m s t s' : mk_model_alias n m s = (t, s') -> EV s [t] s' [v_model_alias n m].
+Proof.
+  unfold mk_model_alias, bind. intros H. destruct (mk_tok "LABEL" n s) as [x s1] eqn:E1.
+  destruct (mk_tree "model_label" [x] s1) as [l s2] eqn:E2. destruct (mk_model m s2) as [mm s3] eqn:E3.
+  eapply EV_tree; [|exact H]. change [l; mm] with ([l] ++ [mm])%list.
+  change [VN "model_label" [v_tok "LABEL" n]; v_model enc_raw m] with ([VN "model_label" [v_tok "LABEL" n]] ++ [v_model enc_raw m])%list.
+  eapply EV_app; [eapply EV_tree; [eapply EV_tok; exact E1 | exact E2] | eapply EV_model; exact E3].
+Qed.
+
+Definition file_v (f : list stmt) : list vt :=
+  flat_map (fun st => match st with
+                      | SDecay m ls => [v_decay enc_raw m ls]
+                      | SModelAlias n m => [v_model_alias n m]
+                      | _ => []
+                      end) f.
+
+Lemma EV_file f : forall s F s', mk_file f s = (F, s') -> EV s F s' (file_v f).
+Proof.
+  induction f as [|st r IH]; simpl; intros s F s' H.
+  - unfold ret in H. inversion H; subst. apply EV_nil.
+  - destruct st; try (apply IH; exact H); unfold bind, ret in H.
+    + destruct (mk_decay m lines s) as [t s1] eqn:E1. destruct (mk_file r s1) as [ts s2] eqn:E2. inversion H; subst.
+      change (t :: ts) with ([t] ++ ts)%list. eapply EV_app; [eapply EV_decay; exact E1 | eapply IH; exact E2].
+    + destruct (mk_model_alias n m s) as [t s1] eqn:E1. destruct (mk_file r s1) as [ts s2] eqn:E2. inversion H; subst.
+      change (t :: ts) with ([t] ++ ts)%list. eapply EV_app; [eapply EV_model_alias; exact E1 | eapply IH; exact E2].
+Qed.
+
+(* ------------------------------------------------------------------ the kept Decay blocks *)
+Definition vd_raw (t : string * list dline) : vt := v_decay enc_raw (fst t) (snd t).
+
+Lemma filter_decay_file f : filter (vis_data "decay") (file_v f) = map vd_raw (raw_decays f).
+Proof.
+  induction f as [|st r IH]; [reflexivity|]. unfold file_v, raw_decays in *. cbn [flat_map].
+  destruct st; cbn [app]; try exact IH.
+  cbn [filter vis_data v_decay]. replace (String.eqb "decay" "decay") with true by reflexivity. cbn [map]. rewrite IH. reflexivity.
+Qed.
+
+Fixpoint vdedupe (seen : list string) (vs : list vt) : list vt :=
+  match vs with
+  | [] => []
+  | t :: r => match vmother t with
+              | Some m => if smem m seen then vdedupe seen r else t :: vdedupe (m :: seen) r
+              | None => t :: vdedupe seen r
+              end
+  end.
+
+Lemma dedupe_h_erase h : forall ts seen, (forall t, In t ts -> inb h t) ->
+  map (erase h) (dedupe_h h seen ts) = vdedupe seen (map (erase h) ts).
+Proof.
+  induction ts as [|t r IH]; intros seen Hb; [reflexivity|]. cbn [dedupe_h map vdedupe].
+  rewrite <- mother_of_erase by (apply Hb; left; reflexivity).
+  assert (Hr : forall t, In t r -> inb h t) by (intros; apply Hb; right; assumption).
+  destruct (mother_of h t) as [m|]; [destruct (smem m seen)|]; cbn [map]; rewrite ?IH by exact Hr; reflexivity.
+Qed.
+
+Lemma vmother_decay enc m ls : vmother (v_decay enc m ls) = Some m.
+Proof. reflexivity. Qed.
+
+Lemma vdedupe_decays : forall l seen, vdedupe seen (map vd_raw l) = map vd_raw (dedupe seen l).
+Proof.
+  induction l as [|[m ls] r IH]; intros seen; [reflexivity|]. cbn [map vdedupe dedupe]. unfold vd_raw at 1. cbn [fst snd]. rewrite vmother_decay.
+  destruct (smem m seen); [apply IH|]. cbn [map]. rewrite IH. reflexivity.
+Qed.
+
+(* ------------------------------------------------------------------ the alias dictionary *)
+Definition ev_dict (h : list tval) (d : pdict (list ot)) : pdict (list vt) := map (fun kv => (fst kv, map (erase h) (snd kv))) d.
+
+Definition alias_entry_v (t : vt) : option (string * list vt) :=
+  match t with
+  | VN _ [l; VN _ body] => match vleafstr l with Some n => Some (n, body) | None => None end
+  | _ => None
+  end.
+
+Lemma alias_entry_erase h t : inb h t ->
+  option_map (fun nb => (fst nb, map (erase h) (snd nb))) (alias_entry h t) = alias_entry_v (erase h t).
+Proof.
+  destruct t as [|i d ch]; intros Hb; [reflexivity|].
+  destruct ch as [|l [|m [|x r]]]; try reflexivity.
+  - destruct m as [|j d' b]; [reflexivity|]. cbn [alias_entry erase map alias_entry_v].
+    rewrite <- leafstr_erase by (eapply inb_child; [exact Hb | left; reflexivity]).
+    destruct (leafstr h l); reflexivity.
+  - destruct m; reflexivity.
+Qed.
+
+Lemma ev_dict_set h k v d : ev_dict h (pd_set k v d) = pd_set k (map (erase h) v) (ev_dict h d).
+Proof.
+  induction d as [|[k' v'] r IH]; cbn [pd_set ev_dict map fst snd]; [reflexivity|].
+  destruct (String.eqb k k'); cbn [map fst snd]; [reflexivity|]. f_equal. exact IH.
+Qed.
+
+Lemma ev_dict_agree n h h' d : agree_below n h h' -> (forall i, In i (tids (vals d)) -> i < n) -> ev_dict h d = ev_dict h' d.
+Proof.
+  intros Ha Hb. unfold ev_dict. apply map_ext_in. intros [k v] Hin. cbn [fst snd]. f_equal.
+  apply map_ext_in. intros x Hx. eapply erase_agree; [exact Ha|]. intros i Hi. apply Hb.
+  unfold vals, tids. apply in_flat_map. exists x. split; [|exact Hi]. apply in_flat_map. exists (k, v). auto.
+Qed.
+
+Lemma grows_agree s s' : grows s s' -> agree_below (ntok s) (h_toks s) (h_toks s').
+Proof.
+  intros [ext ->]. split; [rewrite app_length; unfold ntok; lia|]. intros i Hi. rewrite app_nth1 by exact Hi. reflexivity.
+Qed.
+
+(* the pure fold the dictionary comprehension performs on the erased file *)
+Definition aliases_fold (vs : list vt) (acc : pdict (list vt)) : pdict (list vt) :=
+  fold_left (fun a t => if vis_data "model_alias" t then match alias_entry_v t with Some (n, b) => pd_set n b a | None => a end else a) vs acc.
+
+Lemma dcopy_list_erase : forall l m s l' m' s',
+  NoDup (tids l) -> NoDup (nids l) -> memo_free m l -> (forall i, In i (tids l) -> i < ntok s) ->
+  dcopy_list l m s = (l', m', s') -> grows s s' /\ map (erase (h_toks s')) l' = map (erase (h_toks s)) l.
+Proof.
+  induction l as [|x r IHr]; intros m s l' m1 s1 Hdt Hdn [Hft Hfn] Hb H; simpl in H.
+  - inversion H; subst. split; [apply grows_refl | reflexivity].
+  - destruct (dcopy x m s) as [[x' mx] sx] eqn:Ex. destruct (dcopy_list r mx sx) as [[r' mr] sr] eqn:Er.
+    inversion H; subst; clear H. rewrite tids_cons in Hdt, Hft, Hb. rewrite nids_cons in Hdn, Hfn.
+    assert (Fx : memo_free m [x]).
+    { split; intros j Hj; [apply Hft | apply Hfn]; apply in_or_app; left; [rewrite tids_one in Hj | rewrite nids_one in Hj]; exact Hj. }
+    assert (Nx1 : NoDup (tok_ids x)) by (eapply NoDup_app_l; eauto).
+    assert (Nx2 : NoDup (node_ids x)) by (eapply NoDup_app_l; eauto).
+    assert (Bx : forall j, In j (tok_ids x) -> j < ntok s) by (intros j Hj; apply Hb; apply in_or_app; left; exact Hj).
+    destruct (dcopy_erase x m s x' mx sx Nx1 Nx2 Fx Bx Ex) as [Gx Exx].
+    destruct (dcopy_spec x m s x' mx sx Nx1 Nx2 Fx Ex) as [Ax [Gt Gn]].
+    assert (Lx : ntok s <= ntok sx) by (destruct Ax as (L & _); exact L).
+    destruct (IHr mx sx r' m1 s1) as [Gr Err]; try (eapply NoDup_app_r; eauto).
+    + split.
+      * intros j Hj. destruct (alook j (m_tok mx)) eqn:E; [|reflexivity]. exfalso.
+        destruct (Gt j) as [H|H]; [rewrite E; discriminate | | ].
+        -- apply H. apply Hft. apply in_or_app. right. exact Hj.
+        -- rewrite tids_one in H. eapply NoDup_app_disj; [exact Hdt | exact H | exact Hj].
+      * intros j Hj. destruct (alook j (m_node mx)) eqn:E; [|reflexivity]. exfalso.
+        destruct (Gn j) as [H|H]; [rewrite E; discriminate | | ].
+        -- apply H. apply Hfn. apply in_or_app. right. exact Hj.
+        -- rewrite nids_one in H. eapply NoDup_app_disj; [exact Hdn | exact H | exact Hj].
+    + intros j Hj. assert (j < ntok s) by (apply Hb; apply in_or_app; right; exact Hj). lia.
+    + exact Er.
+    + split; [eapply grows_trans; eauto|]. simpl. f_equal.
+      * rewrite <- Exx. destruct Gr as [ext ->]. apply erase_ext. intros j Hj. apply app_nth1.
+        destruct (AL_sep_bounded _ _ _ Ax) as [_ [B _]]. apply B. rewrite tids_one. exact Hj.
+      * rewrite Err. destruct Gx as [ext ->]. apply erase_grow. intros j Hj. apply Hb. apply in_or_app. right. exact Hj.
+Qed.
+
+Lemma deepcopy_list_erase l s c s' :
+  NoDup (tids l) -> NoDup (nids l) -> (forall i, In i (tids l) -> i < ntok s) ->
+  deepcopy_list l s = (c, s') -> grows s s' /\ map (erase (h_toks s')) c = map (erase (h_toks s)) l.
+Proof.
+  unfold deepcopy_list. intros H1 H2 Hb H. destruct (dcopy_list l memo0 s) as [[c' m] s1] eqn:E. inversion H; subst.
+  eapply dcopy_list_erase; eauto. apply memo0_free.
+Qed.
+
+Lemma agree_below_refl n h : n <= length h -> agree_below n h h.
+Proof. intros H. split; [exact H | reflexivity]. Qed.
+
+Lemma agree_below_weaken n m h h' : n <= m -> agree_below m h h' -> agree_below n h h'.
+Proof. intros Hnm [L H]. split; [lia|]. intros i Hi. apply H. lia. Qed.
+
+Lemma raw_aliases_erase lo : forall F acc s d s',
+  NoDup (tids F) -> NoDup (nids F) -> (forall i, In i (tids F) -> i < ntok lo) ->
+  ntok lo <= ntok s -> agree_below (ntok lo) (h_toks lo) (h_toks s) ->
+  (forall i, In i (tids (vals acc)) -> i < ntok s) ->
+  raw_aliases F acc s = (d, s') ->
+  agree_below (ntok s) (h_toks s) (h_toks s') /\ ntok s <= ntok s' /\
+  (forall i, In i (tids (vals d)) -> i < ntok s') /\
+  ev_dict (h_toks s') d = aliases_fold (map (erase (h_toks lo)) F) (ev_dict (h_toks s) acc).
+Proof.
+  induction F as [|t r IH]; intros acc s d s' Hdt Hdn Hbt Lle Ha Hacc H; cbn [raw_aliases] in H.
+  - unfold ret in H. inversion H; subst. split; [apply agree_below_refl; unfold ntok; lia|]. split; [lia|]. split; [exact Hacc | reflexivity].
+  - rewrite tids_cons in Hdt, Hbt. rewrite nids_cons in Hdn.
+    assert (Bt : forall i, In i (tok_ids t) -> i < ntok lo) by (intros i Hi; apply Hbt; apply in_or_app; left; exact Hi).
+    assert (Et : erase (h_toks s) t = erase (h_toks lo) t) by (symmetry; eapply erase_agree; eauto).
+    assert (It : inb (h_toks s) t) by (intros i Hi; specialize (Bt i Hi); unfold ntok in *; lia).
+    assert (Hr : forall acc0 s0 d0 s0', ntok lo <= ntok s0 -> agree_below (ntok lo) (h_toks lo) (h_toks s0) ->
+                 (forall i, In i (tids (vals acc0)) -> i < ntok s0) -> raw_aliases r acc0 s0 = (d0, s0') ->
+                 agree_below (ntok s0) (h_toks s0) (h_toks s0') /\ ntok s0 <= ntok s0' /\
+                 (forall i, In i (tids (vals d0)) -> i < ntok s0') /\
+                 ev_dict (h_toks s0') d0 = aliases_fold (map (erase (h_toks lo)) r) (ev_dict (h_toks s0) acc0)).
+    { intros. eapply IH; eauto; try (eapply NoDup_app_r; eauto). intros; apply Hbt; apply in_or_app; right; assumption. }
+    cbn [map]. unfold aliases_fold. cbn [fold_left]. fold (aliases_fold (map (erase (h_toks lo)) r)).
+    rewrite <- Et, <- (is_data_erase "model_alias" (h_toks s) t).
+    destruct (is_data "model_alias" t); [|eapply Hr; eauto].
+    rewrite <- (alias_entry_erase (h_toks s) t It).
+    destruct (alias_entry (h_toks s) t) as [[n body]|] eqn:Ea; cbn [option_map fst snd]; [|eapply Hr; eauto].
+    unfold bind in H. destruct (deepcopy_list body s) as [c s1] eqn:Ec.
+    destruct (alias_entry_sub _ _ _ _ Ea) as (St & Sn & Nt & Nn).
+    assert (Nb1 : NoDup (tids body)) by (apply Nt; eapply NoDup_app_l; eauto).
+    assert (Nb2 : NoDup (nids body)) by (apply Nn; eapply NoDup_app_l; eauto).
+    assert (Bb : forall i, In i (tids body) -> i < ntok s) by (intros i Hi; specialize (Bt i (St i Hi)); lia).
+    destruct (deepcopy_list_erase _ _ _ _ Nb1 Nb2 Bb Ec) as [Gc Ecc].
+    pose proof (AL_deepcopy_list _ _ _ _ Nb1 Nb2 Ec) as Ac. destruct (AL_sep_bounded _ _ _ Ac) as [_ [Bc _]].
+    assert (Lc : ntok s <= ntok s1) by (destruct Ac as (L & _); exact L).
+    pose proof (grows_agree _ _ Gc) as Ag.
+    destruct (Hr (pd_set n c acc) s1 d s') as (A2 & L2 & B2 & E2); auto; try lia.
+    + eapply agree_below_trans; [| exact Ha | exact Ag |]; unfold ntok in *; lia.
+    + intros i Hi. destruct (in_vals_set _ _ _ _ Hi) as [H1|H1]; [apply Bc; exact H1 | specialize (Hacc i H1); lia].
+    + split; [eapply agree_below_trans; [| exact Ag | exact A2 |]; unfold ntok in *; lia|]. split; [lia|]. split; [exact B2|].
+      rewrite E2. rewrite ev_dict_set. rewrite Ecc. rewrite (ev_dict_agree (ntok s) (h_toks s) (h_toks s1) acc Ag Hacc). reflexivity.
+Qed.
+
+Lemma dcopy_dict_keys : forall d m s d' m' s', dcopy_dict d m s = (d', m', s') -> map fst d' = map fst d /\ map (@length ot) (map snd d') = map (@length ot) (map snd d).
+Proof.
+  induction d as [|[k v] r IH]; simpl; intros m s d' m' s' H.
+  - inversion H; subst. split; reflexivity.
+  - destruct (dcopy_list v m s) as [[v' m1] s1] eqn:Ev. destruct (dcopy_dict r m1 s1) as [[r' m2] s2] eqn:Er. inversion H; subst.
+    destruct (IH _ _ _ _ _ Er) as [K L]. simpl. rewrite K, L. split; [reflexivity|]. f_equal.
+    clear -Ev. revert m s v' m1 s1 Ev. induction v as [|x v IHv]; simpl; intros m s v' m1 s1 Ev.
+    + inversion Ev; subst. reflexivity.
+    + destruct (dcopy x m s) as [[x' mx] sx]. destruct (dcopy_list v mx sx) as [[r' mr] sr] eqn:Er. inversion Ev; subst. simpl. f_equal. eapply IHv; eauto.
+Qed.
+
+Lemma app_eq_len {A} (a a' b b' : list A) : length a = length a' -> (a ++ b = a' ++ b')%list -> a = a' /\ b = b'.
+Proof.
+  revert a'. induction a as [|x r IH]; intros [|x' r'] L E; simpl in *; try discriminate; [auto|].
+  inversion E; subst. destruct (IH r') as [-> ->]; auto.
+Qed.
+
+(* splitting a flat list back into a dictionary of the same key / length structure *)
+Lemma ev_dict_of_vals h h' d d' :
+  map fst d' = map fst d -> map (@length ot) (map snd d') = map (@length ot) (map snd d) ->
+  map (erase h') (vals d') = map (erase h) (vals d) -> ev_dict h' d' = ev_dict h d.
+Proof.
+  revert d'. induction d as [|[k v] r IH]; intros [|[k' v'] r'] K L E; simpl in K, L; try discriminate; [reflexivity|].
+  inversion K; subst. inversion L as [[Lv Lr]]. rewrite !vals_cons, !map_app in E.
+  assert (Ev : map (erase h') v' = map (erase h) v /\ map (erase h') (vals r') = map (erase h) (vals r)).
+  { apply app_eq_len; [|exact E]. rewrite !map_length. exact Lv. }
+  destruct Ev as [E1 E2]. cbn [ev_dict map fst snd]. rewrite E1. f_equal. apply IH; auto.
+Qed.
+
+(* ------------------------------------------------------------------ the Transformer, on values *)
+Fixpoint vtransform (alv : pdict (list vt)) (t : vt) : vt + herr :=
+  match t with
+  | VT k v => inl (VT k v)
+  | VN d ch =>
+      match (fix go (l : list vt) : list vt + herr :=
+               match l with
+               | [] => inl []
+               | x :: r => match vtransform alv x with
+                           | inr e => inr e
+                           | inl x' => match go r with inr e => inr e | inl r' => inl (x' :: r') end
+                           end
+               end) ch with
+      | inr e => inr e
+      | inl ch' =>
+          if String.eqb d "model" then
+            match ch' with
+            | VN _ (lbl :: _) :: _ =>
+                match vtokstr lbl with
+                | Some name => match pd_get name alv with Some body => inl (VN "model" body) | None => inr (HValueError name) end
+                | None => inr HShape
+                end
+            | _ => inl (VN "model" ch')
+            end
+          else inl (VN d ch')
+      end
+  end.
+Fixpoint vtransform_list (alv : pdict (list vt)) (l : list vt) : list vt + herr :=
+  match l with
+  | [] => inl []
+  | x :: r => match vtransform alv x with
+              | inr e => inr e
+              | inl x' => match vtransform_list alv r with inr e => inr e | inl r' => inl (x' :: r') end
+              end
+  end.
+
+Lemma vtransform_node alv d ch :
+  vtransform alv (VN d ch) =
+  match vtransform_list alv ch with
+  | inr e => inr e
+  | inl ch' =>
+      if String.eqb d "model" then
+        match ch' with
+        | VN _ (lbl :: _) :: _ =>
+            match vtokstr lbl with
+            | Some name => match pd_get name alv with Some body => inl (VN "model" body) | None => inr (HValueError name) end
+            | None => inr HShape
+            end
+        | _ => inl (VN "model" ch')
+        end
+      else inl (VN d ch')
+  end.
+Proof.
+  cbn [vtransform]. replace ((fix go (l : list vt) : list vt + herr := match l with
+               | [] => inl []
+               | x :: r => match vtransform alv x with
+                           | inr e => inr e
+                           | inl x' => match go r with inr e => inr e | inl r' => inl (x' :: r') end
+                           end
+               end) ch) with (vtransform_list alv ch); [reflexivity|].
+  induction ch as [|x r IH]; [reflexivity|]. cbn [vtransform_list]. rewrite IH. reflexivity.
+Qed.
+
+Lemma ev_dict_get h al k : pd_get k (ev_dict h al) = option_map (map (erase h)) (pd_get k al).
+Proof. induction al as [|[k' v] r IH]; [reflexivity|]. cbn [ev_dict map fst snd pd_get]. destruct (String.eqb k k'); [reflexivity | exact IH]. Qed.
+
+Lemma get_in_vals (al : pdict (list ot)) k body a : pd_get k al = Some body -> In a (tids body) -> In a (tids (vals al)).
+Proof.
+  intros Hg Ha. apply pd_get_some_in in Hg. unfold vals, tids. apply in_flat_map in Ha. destruct Ha as (x & Hx & Hax).
+  apply in_flat_map. exists x. split; [|exact Hax]. apply in_flat_map. exists (k, body). auto.
+Qed.
+
+Definition res_rel (h : list tval) (r : ot + herr) (v : vt + herr) : Prop :=
+  match r, v with inl t, inl x => erase h t = x | inr e, inr e' => e = e' | _, _ => False end.
+Definition resl_rel (h : list tval) (r : list ot + herr) (v : list vt + herr) : Prop :=
+  match r, v with inl t, inl x => map (erase h) t = x | inr e, inr e' => e = e' | _, _ => False end.
+
+Lemma transform_erase al : al_ok al -> forall t s r s',
+  NoDup (tok_ids t) -> (forall i, In i (tok_ids t) -> i < ntok s) -> (forall i, In i (tids (vals al)) -> i < ntok s) ->
+  transform al t s = (r, s') ->
+  grows s s' /\ res_rel (h_toks s') r (vtransform (ev_dict (h_toks s) al) (erase (h_toks s) t)).
+Proof.
+  intros Hal. induction t as [i k|i d ch IH] using ot_ind'; intros s r s' Hnd Hb Hba H.
+  - simpl in H. unfold retE in H. inversion H; subst. split; [apply grows_refl | reflexivity].
+  - cbn [transform] in H. unfold bindE at 1 in H. cbn [erase]. rewrite vtransform_node.
+    match type of H with context [?g ch s] => destruct (g ch s) as [rc s1] eqn:Ego end.
+    assert (Hch : grows s s1 /\ resl_rel (h_toks s1) rc (vtransform_list (ev_dict (h_toks s) al) (map (erase (h_toks s)) ch)) /\
+                  (forall ch', rc = inl ch' -> TL s ch ch' s1)).
+    { clear H. revert s rc s1 Hb Hba Ego. simpl in Hnd. fold (tids ch) in Hnd. simpl. fold (tids ch).
+      induction ch as [|x r0 IHr]; intros s rc s1 Hb Hba Ego.
+      - unfold retE in Ego. inversion Ego; subst. split; [apply grows_refl|]. split; [reflexivity|]. intros ch' E. inversion E; subst. apply TL_nil.
+      - inversion IH as [|? ? Hx HFr]; subst. unfold bindE at 1 in Ego. rewrite tids_cons in Hnd, Hb.
+        assert (Nx : NoDup (tok_ids x)) by (eapply NoDup_app_l; eauto).
+        assert (Bx : forall j, In j (tok_ids x) -> j < ntok s) by (intros j Hj; apply Hb; apply in_or_app; left; exact Hj).
+        destruct (transform al x s) as [[x'|e] sx] eqn:Ex.
+        + destruct (Hx s (inl x') sx Nx Bx Hba Ex) as [Gx Rx].
+          pose proof (transform_spec al Hal x s x' sx Nx Bx Ex) as Tx.
+          assert (Lx : ntok s <= ntok sx) by (destruct Tx as (L & _); exact L).
+          pose proof (grows_agree _ _ Gx) as Agx.
+          unfold bindE at 1 in Ego.
+          match type of Ego with context [?g r0 sx] => destruct (g r0 sx) as [rr sr] eqn:Er end.
+          assert (Br : forall j, In j (tids r0) -> j < ntok sx).
+          { intros j Hj. assert (j < ntok s) by (apply Hb; apply in_or_app; right; exact Hj). lia. }
+          assert (Bal : forall j, In j (tids (vals al)) -> j < ntok sx) by (intros j Hj; specialize (Hba j Hj); lia).
+          destruct (IHr HFr (NoDup_app_r _ _ Hnd) sx rr sr Br Bal Er) as (Gr & Rr & Tr).
+          assert (Eal : ev_dict (h_toks sx) al = ev_dict (h_toks s) al).
+          { symmetry. apply (ev_dict_agree (ntok s)); [exact Agx | exact Hba]. }
+          assert (Er0 : map (erase (h_toks sx)) r0 = map (erase (h_toks s)) r0).
+          { symmetry. apply erase_list_ext. intros j Hj. destruct Agx as [_ Hag]. apply Hag. apply Hb. apply in_or_app. right. exact Hj. }
+          rewrite Eal, Er0 in Rr.
+          cbn [map vtransform_list]. unfold res_rel in Rx.
+          destruct (vtransform (ev_dict (h_toks s) al) (erase (h_toks s) x)) as [vx|ve]; [|contradiction].
+          destruct rr as [r'|e].
+          * unfold retE in Ego. inversion Ego; subst; clear Ego. split; [eapply grows_trans; eauto|]. split.
+            -- unfold resl_rel in *. destruct (vtransform_list _ _) as [vr|]; [|contradiction]. cbn [map]. f_equal; [|exact Rr].
+               destruct Gr as [ext ->]. apply erase_ext. intros j Hj. apply app_nth1.
+               destruct Tx as (_ & _ & _ & I & _). destruct (I j) as [Hs|Hf]; [rewrite tids_one; exact Hj | | unfold ntok in *; lia].
+               rewrite tids_one in Hs. specialize (Bx j Hs). unfold ntok in *. lia.
+            -- intros ch' E. inversion E; subst. change (x :: r0) with ([x] ++ r0)%list. change (x' :: r') with ([x'] ++ r')%list.
+               eapply TL_app; [| | exact Tx | apply Tr; reflexivity]; rewrite tids_app, tids_one; auto.
+          * inversion Ego; subst; clear Ego. split; [eapply grows_trans; eauto|]. split.
+            -- unfold resl_rel in *. destruct (vtransform_list _ _) as [vr|e']; [contradiction | exact Rr].
+            -- intros ch' E. discriminate.
+        + destruct (Hx s (inr e) sx Nx Bx Hba Ex) as [Gx Rx]. inversion Ego; subst; clear Ego.
+          split; [exact Gx|]. split; [|intros ch' E; discriminate].
+          cbn [map vtransform_list]. unfold res_rel in Rx. destruct (vtransform _ _) as [vx|ve]; [contradiction | exact Rx]. }
+    destruct Hch as (G1 & R1 & T1).
+    destruct rc as [ch'|e].
+    2:{ unfold resl_rel in R1. destruct (vtransform_list _ _) as [|e']; [contradiction|].
+        injection H as Hr Hs. subst r s'. split; [exact G1 | simpl; exact R1]. }
+    unfold resl_rel in R1. destruct (vtransform_list (ev_dict (h_toks s) al) (map (erase (h_toks s)) ch)) as [vch|]; [|contradiction].
+    specialize (T1 ch' eq_refl).
+    assert (Hdef : forall d0 r0 s0, liftE (mk_tree d0 ch') s1 = (r0, s0) -> grows s s0 /\ res_rel (h_toks s0) r0 (inl (VN d0 vch))).
+    { intros d0 r0 s0 Hm. unfold liftE, mk_tree in Hm. injection Hm as Hr Hs. subst r0 s0. split; [exact G1|]. simpl. rewrite R1. reflexivity. }
+    destruct (String.eqb d "model") eqn:Ed; [|eapply Hdef; exact H].
+    apply String.eqb_eq in Ed. subst d.
+    destruct ch' as [|c0 ch'']; [subst vch; eapply Hdef; exact H|].
+    destruct c0 as [j k|j dj [|lbl rest]]; cbn [map erase] in R1; subst vch; try (eapply Hdef; exact H).
+    (* a model_label: the alias body is spliced in, as a fresh copy *)
+    assert (Bl : inb (h_toks s1) lbl).
+    { intros a Ha. destruct T1 as (_ & _ & _ & I & _). destruct (I a) as [Hs|Hf].
+      - rewrite tids_cons. apply in_or_app. left. simpl. apply in_or_app. left. exact Ha.
+      - assert (a < ntok s) by (apply Hb; exact Hs). destruct G1 as [ext ->]. rewrite app_length. unfold ntok in *. lia.
+      - unfold ntok in *. lia. }
+    rewrite <- (tokstr_erase _ _ Bl).
+    destruct (tokstr (h_toks s1) lbl) as [name|]; [|inversion H; subst; split; [exact G1 | reflexivity]].
+    rewrite ev_dict_get. destruct (pd_get name al) as [body|] eqn:Eg; cbn [option_map]; [|inversion H; subst; split; [exact G1 | reflexivity]].
+    destruct (Hal _ _ Eg) as [Nt Nn].
+    unfold bindE, liftE in H. destruct (deepcopy_list body s1) as [b s2] eqn:Eb.
+    unfold mk_tree in H. inversion H; subst; clear H.
+    assert (L1 : ntok s <= ntok s1) by (destruct T1 as (L & _); exact L).
+    assert (Bb0 : forall a, In a (tids body) -> a < ntok s) by (intros a Ha; apply Hba; eapply get_in_vals; eauto).
+    assert (Bb : forall a, In a (tids body) -> a < ntok s1) by (intros a Ha; specialize (Bb0 a Ha); lia).
+    destruct (deepcopy_list_erase _ _ _ _ Nt Nn Bb Eb) as [G2 E2].
+    split; [eapply grows_trans; eauto|]. simpl. rewrite E2.
+    assert (E3 : map (erase (h_toks s1)) body = map (erase (h_toks s)) body).
+    { symmetry. apply erase_list_ext. intros a Ha. destruct (grows_agree _ _ G1) as [_ Hag]. apply Hag. apply Bb0. exact Ha. }
+    rewrite E3. reflexivity.
+Qed.
+
+(* ------------------------------------------------------------------ the value visitor, on values *)
+Definition conv_label (defs : pdict Q) (s : string) : tval :=
+  match s with
+  | String c rest =>
+      if is_c c "-" then match pd_get rest defs with Some v => TQ (- v)%Q | None => TS s end
+      else match pd_get s defs with Some v => TQ v | None => TS s end
+  | EmptyString => TS s
+  end.
+Definition vreplace (defs : pdict Q) (c : vt) : vt :=
+  match c with
+  | VN d (VT k (TS lit) :: rest) => VN d (VT k (TQ (numq lit)) :: rest)
+  | VT k (TS s) => VT k (conv_label defs s)
+  | _ => c
+  end.
+Fixpoint vvisit (defs : pdict Q) (t : vt) : vt :=
+  match t with
+  | VT k v => VT k v
+  | VN d ch => if String.eqb "model_options" d then VN d (map (vreplace defs) ch) else VN d (map (vvisit defs) ch)
+  end.
+
+Definition child_ok (c : vt) : bool :=
+  match c with VN _ (VT _ (TS _) :: _) => true | VT _ (TS (String _ _)) => true | _ => false end.
+Fixpoint vok (t : vt) : bool :=
+  match t with
+  | VT _ _ => true
+  | VN d ch => if String.eqb "model_options" d then forallb child_ok ch else forallb vok ch
+  end.
+
+Definition frame (ids : list nat) (h h' : list tval) : Prop :=
+  length h' = length h /\ forall j, ~ In j ids -> nth j h' (TS "") = nth j h (TS "").
+
+Lemma frame_refl ids h : frame ids h h.
+Proof. split; reflexivity. Qed.
+Lemma frame_trans a b h1 h2 h3 : frame a h1 h2 -> frame b h2 h3 -> frame (a ++ b) h1 h3.
+Proof.
+  intros [L1 F1] [L2 F2]. split; [lia|]. intros j Hj. rewrite F2, F1; [reflexivity | |]; intros Hin; apply Hj; apply in_or_app; auto.
+Qed.
+Lemma frame_erase ids h h' t : frame ids h h' -> (forall i, In i (tok_ids t) -> ~ In i ids) -> erase h' t = erase h t.
+Proof. intros [_ F] Hd. apply erase_ext. intros i Hi. apply F. apply Hd. exact Hi. Qed.
+
+Lemma nth_error_nth_some {A} (l : list A) i d : i < length l -> nth_error l i = Some (nth i l d).
+Proof. apply nth_error_nth'. Qed.
+
+Lemma replace_child_ok defs c h :
+  NoDup (tok_ids c) -> inb h c -> child_ok (erase h c) = true ->
+  exists h', replace_child defs c h = inl h' /\ erase h' c = vreplace defs (erase h c) /\ frame (tok_ids c) h h'.
+Proof.
+  intros Hnd Hb Hok. destruct c as [i k|i d [|[j k|? ? ?] rest]]; simpl in Hok; try discriminate.
+  - assert (Hi : i < length h) by (apply Hb; simpl; auto).
+    cbn [replace_child]. rewrite (nth_error_nth_some h i (TS "") Hi). destruct (nth i h (TS "")) as [[|a s]|q] eqn:En; try discriminate.
+    cbn [erase vreplace conv_label]. rewrite En. cbn [vreplace conv_label].
+    destruct (is_c a "-").
+    + destruct (pd_get s defs) as [v|].
+      * eexists. split; [reflexivity|]. split; [simpl; rewrite nth_upd_same by exact Hi; reflexivity|].
+        split; [apply upd_length|]. intros j0 Hj. apply nth_upd_other. intros ->. apply Hj. simpl. auto.
+      * eexists. split; [reflexivity|]. split; [simpl; rewrite En; reflexivity | apply frame_refl].
+    + destruct (pd_get (String a s) defs) as [v|].
+      * eexists. split; [reflexivity|]. split; [simpl; rewrite nth_upd_same by exact Hi; reflexivity|].
+        split; [apply upd_length|]. intros j0 Hj. apply nth_upd_other. intros ->. apply Hj. simpl. auto.
+      * eexists. split; [reflexivity|]. split; [simpl; rewrite En; reflexivity | apply frame_refl].
+  - assert (Hj : j < length h) by (apply Hb; simpl; auto).
+    cbn [replace_child]. rewrite (nth_error_nth_some h j (TS "") Hj). destruct (nth j h (TS "")) as [lit|q] eqn:En; try discriminate.
+    eexists. split; [reflexivity|]. simpl in Hnd. inversion Hnd as [|? ? Hni Hnd']; subst. split.
+    + cbn [erase map vreplace]. rewrite En. cbn [vreplace]. rewrite nth_upd_same by exact Hj. f_equal. f_equal.
+      apply map_ext_in. intros x Hx. apply erase_ext. intros a Ha. apply nth_upd_other. intros ->. apply Hni. apply in_flat_map. exists x. auto.
+    + split; [apply upd_length|]. intros j0 Hj0. apply nth_upd_other. intros ->. apply Hj0. simpl. auto.
+Qed.
+
+Lemma foldE_children defs : forall cs h,
+  NoDup (tids cs) -> (forall c, In c cs -> inb h c) -> forallb child_ok (map (erase h) cs) = true ->
+  exists h', foldE (replace_child defs) cs h = inl h' /\ map (erase h') cs = map (vreplace defs) (map (erase h) cs) /\ frame (tids cs) h h'.
+Proof.
+  induction cs as [|c r IH]; intros h Hnd Hb Hok.
+  - exists h. split; [reflexivity|]. split; [reflexivity | apply frame_refl].
+  - rewrite tids_cons in Hnd. cbn [map forallb] in Hok. apply andb_true_iff in Hok. destruct Hok as [Oc Or].
+    destruct (replace_child_ok defs c h (NoDup_app_l _ _ Hnd) (Hb c (or_introl eq_refl)) Oc) as (h1 & E1 & V1 & F1).
+    assert (Er : map (erase h1) r = map (erase h) r).
+    { apply map_ext_in. intros x Hx. eapply frame_erase; [exact F1|]. intros i Hi Hc. eapply NoDup_app_disj; [exact Hnd | exact Hc|].
+      unfold tids. apply in_flat_map. exists x. auto. }
+    destruct (IH h1) as (h2 & E2 & V2 & F2).
+    + eapply NoDup_app_r; eauto.
+    + intros x Hx i Hi. destruct F1 as [L _]. rewrite L. apply (Hb x (or_intror Hx)). exact Hi.
+    + rewrite Er. exact Or.
+    + exists h2. split; [cbn [foldE]; rewrite E1; exact E2|]. split.
+      * cbn [map]. f_equal; [|rewrite V2, Er; reflexivity]. rewrite <- V1. eapply frame_erase; [exact F2|].
+        intros i Hi Hc. eapply NoDup_app_disj; [exact Hnd | exact Hi | exact Hc].
+      * rewrite tids_cons. eapply frame_trans; eauto.
+Qed.
+
+(* a model_options node's visited children are its children; elsewhere the visited children of the sub-trees, in order *)
+Lemma visited_raw_mo i ch : Forall plain ch -> visited_raw (OTree i "model_options" ch) = ch.
+Proof.
+  intros Hp. unfold visited_raw. cbn [subtrees_named]. replace (String.eqb "model_options" "model_options") with true by reflexivity.
+  assert (E : flat_map (subtrees_named "model_options") ch = []).
+  { induction ch as [|x r IHr]; [reflexivity|]. inversion Hp; subst. simpl. rewrite plain_no_mo by assumption. simpl. auto. }
+  rewrite E. simpl. apply app_nil_r.
+Qed.
+Lemma visited_raw_other i d ch : String.eqb "model_options" d = false -> visited_raw (OTree i d ch) = flat_map visited_raw ch.
+Proof.
+  intros Hd. unfold visited_raw. cbn [subtrees_named]. rewrite Hd. cbn [app]. rewrite flat_map_flat_map. reflexivity.
+Qed.
+
+Definition visit_pre (h : list tval) (t : ot) : Prop :=
+  mo_ok t /\ NoDup (tok_ids t) /\ inb h t /\ vok (erase h t) = true.
+
+Lemma vok_children h i d ch : String.eqb "model_options" d = false -> vok (erase h (OTree i d ch)) = true -> forall x, In x ch -> vok (erase h x) = true.
+Proof.
+  intros Hd H x Hx. cbn [erase vok] in H. rewrite Hd in H. rewrite forallb_forall in H. apply H. apply in_map. exact Hx.
+Qed.
+
+Lemma visit_tree defs : forall t h, visit_pre h t ->
+  exists h', foldE (replace_child defs) (visited_raw t) h = inl h' /\ erase h' t = vvisit defs (erase h t) /\ frame (tok_ids t) h h'.
+Proof.
+  induction t as [i k|i d ch IH] using ot_ind'; intros h (Hok & Hnd & Hb & Hv).
+  - exists h. split; [reflexivity|]. split; [reflexivity | apply frame_refl].
+  - destruct (String.eqb "model_options" d) eqn:Ed.
+    + apply String.eqb_eq in Ed. subst d. pose proof (mo_ok_plain_children _ _ Hok) as Hp.
+      rewrite (visited_raw_mo _ _ Hp). cbn [erase vok] in Hv. replace (String.eqb "model_options" "model_options") with true in Hv by reflexivity.
+      destruct (foldE_children defs ch h) as (h' & E & V & F); [exact Hnd | intros c Hc; eapply inb_child; eauto | exact Hv|].
+      exists h'. split; [exact E|]. split; [|exact F]. cbn [erase vvisit]. replace (String.eqb "model_options" "model_options") with true by reflexivity.
+      rewrite V. reflexivity.
+    + rewrite (visited_raw_other _ _ _ Ed). cbn [erase vvisit]. rewrite Ed.
+      pose proof (mo_ok_children _ _ _ Hok) as Hch. simpl in Hnd. fold (tids ch) in Hnd.
+      assert (Hbc : forall x, In x ch -> inb h x) by (intros x Hx; eapply inb_child; eauto).
+      pose proof (vok_children h i d ch Ed Hv) as Hvc.
+      cut (exists h', foldE (replace_child defs) (flat_map visited_raw ch) h = inl h' /\
+                      map (erase h') ch = map (vvisit defs) (map (erase h) ch) /\ frame (tids ch) h h').
+      { intros (h' & E & V & F). exists h'. split; [exact E|]. split; [rewrite V; reflexivity | exact F]. }
+      clear Hok Hb Hv Ed. revert h Hbc Hvc. revert IH Hch Hnd. induction ch as [|x r IHr]; intros IH Hch Hnd h Hbc Hvc.
+      * exists h. split; [reflexivity|]. split; [reflexivity | apply frame_refl].
+      * inversion IH as [|? ? Hx HFr]; subst. inversion Hch as [|? ? Ox Or]; subst. rewrite tids_cons in Hnd.
+        destruct (Hx h) as (h1 & E1 & V1 & F1).
+        { split; [exact Ox|]. split; [eapply NoDup_app_l; eauto|]. split; [apply Hbc; left; reflexivity | apply Hvc; left; reflexivity]. }
+        assert (Er : map (erase h1) r = map (erase h) r).
+        { apply map_ext_in. intros y Hy. eapply frame_erase; [exact F1|]. intros a Ha Hc. eapply NoDup_app_disj; [exact Hnd | exact Hc|].
+          unfold tids. apply in_flat_map. exists y. auto. }
+        destruct (IHr HFr Or (NoDup_app_r _ _ Hnd) h1) as (h2 & E2 & V2 & F2).
+        { intros y Hy a Ha. destruct F1 as [L _]. rewrite L. apply (Hbc y (or_intror Hy)). exact Ha. }
+        { intros y Hy. assert (Ey : erase h1 y = erase h y).
+          { eapply frame_erase; [exact F1|]. intros a Ha Hc. eapply NoDup_app_disj; [exact Hnd | exact Hc|]. unfold tids. apply in_flat_map. exists y. auto. }
+          rewrite Ey. apply Hvc. right. exact Hy. }
+        exists h2. split; [cbn [flat_map]; rewrite foldE_app, E1; exact E2|]. split.
+        -- cbn [map]. f_equal; [|rewrite V2, Er; reflexivity]. rewrite <- V1. eapply frame_erase; [exact F2|].
+           intros a Ha Hc. eapply NoDup_app_disj; [exact Hnd | exact Ha | exact Hc].
+        -- eapply frame_trans; eauto.
+Qed.
+
+Lemma visit_trees defs : forall ts h, NoDup (tids ts) -> (forall t, In t ts -> mo_ok t /\ inb h t /\ vok (erase h t) = true) ->
+  exists h', foldE (replace_child defs) (flat_map visited_raw ts) h = inl h' /\
+             map (erase h') ts = map (vvisit defs) (map (erase h) ts) /\ frame (tids ts) h h'.
+Proof.
+  induction ts as [|x r IHr]; intros h Hnd Hpre.
+  - exists h. split; [reflexivity|]. split; [reflexivity | apply frame_refl].
+  - rewrite tids_cons in Hnd. destruct (Hpre x (or_introl eq_refl)) as (Ox & Bx & Vx).
+    destruct (visit_tree defs x h) as (h1 & E1 & V1 & F1).
+    { split; [exact Ox|]. split; [eapply NoDup_app_l; eauto|]. split; assumption. }
+    assert (Efr : forall y, In y r -> erase h1 y = erase h y).
+    { intros y Hy. eapply frame_erase; [exact F1|]. intros a Ha Hc. eapply NoDup_app_disj; [exact Hnd | exact Hc|]. unfold tids. apply in_flat_map. exists y. auto. }
+    destruct (IHr h1 (NoDup_app_r _ _ Hnd)) as (h2 & E2 & V2 & F2).
+    { intros y Hy. destruct (Hpre y (or_intror Hy)) as (Oy & By & Vy). split; [exact Oy|]. split.
+      - intros a Ha. destruct F1 as [L _]. rewrite L. apply By. exact Ha.
+      - rewrite (Efr y Hy). exact Vy. }
+    exists h2. split; [cbn [flat_map]; rewrite foldE_app, E1; exact E2|]. split.
+    + cbn [map]. f_equal.
+      * rewrite <- V1. eapply frame_erase; [exact F2|]. intros a Ha Hc. eapply NoDup_app_disj; [exact Hnd | exact Ha | exact Hc].
+      * rewrite V2. f_equal. apply map_ext_in. intros y Hy. apply Efr. exact Hy.
+    + eapply frame_trans; eauto.
+Qed.
+
+(* with distinct Tree identities the de-duplication of iter_subtrees changes nothing *)
+Lemma subtrees_ids_sublist d : forall t, sublist (map node_id (subtrees_named d t)) (node_ids t).
+Proof.
+  induction t as [i k|i d' ch IH] using ot_ind'; [constructor|]. cbn [subtrees_named node_ids].
+  assert (Hc : sublist (map node_id (flat_map (subtrees_named d) ch)) (flat_map node_ids ch)).
+  { induction ch as [|x r IHr]; [constructor|]. inversion IH; subst. cbn [flat_map]. rewrite map_app. apply sublist_app2; auto. }
+  destruct (String.eqb d d'); cbn [app map node_id]; [apply sub_keep | apply sub_skip]; exact Hc.
+Qed.
+
+Lemma dedupe_nodes_id : forall l seen, NoDup (map node_id l) -> (forall x, In x l -> ~ In (node_id x) seen) -> dedupe_nodes seen l = l.
+Proof.
+  induction l as [|x r IH]; intros seen Hnd Hs; [reflexivity|]. cbn [dedupe_nodes]. cbn [map] in Hnd. inversion Hnd as [|? ? Hni Hnd']; subst.
+  destruct (existsb (Nat.eqb (node_id x)) seen) eqn:E.
+  - exfalso. apply existsb_exists in E. destruct E as (y & Hy & Heq). apply Nat.eqb_eq in Heq. subst y. apply (Hs x (or_introl eq_refl)). exact Hy.
+  - f_equal. apply IH; [exact Hnd'|]. intros y Hy [Heq|Hin]; [apply Hni; rewrite Heq; apply in_map; exact Hy | apply (Hs y (or_intror Hy)); exact Hin].
+Qed.
+
+Lemma visited_eq_raw t : NoDup (node_ids t) -> visited t = visited_raw t.
+Proof.
+  intros Hnd. unfold visited, visited_raw. rewrite dedupe_nodes_id; [reflexivity | | intros x _ []].
+  eapply sublist_nodup; [apply subtrees_ids_sublist | exact Hnd].
+Qed.
+
+Lemma flat_map_ext_in' {A B} (f g : A -> list B) l : (forall x, In x l -> f x = g x) -> flat_map f l = flat_map g l.
+Proof. induction l as [|x r IH]; simpl; intros H; [reflexivity|]. rewrite H by auto. rewrite IH; auto. Qed.
+
+(* the whole visitor pass *)
+Theorem visit_pass defs D h :
+  NoDup (tids D) -> NoDup (nids D) -> (forall t, In t D -> mo_ok t /\ inb h t /\ vok (erase h t) = true) ->
+  exists h', foldE (visit_params defs) D h = inl h' /\ map (erase h') D = map (vvisit defs) (map (erase h) D) /\ frame (tids D) h h'.
+Proof.
+  intros Ht Hn Hpre. rewrite visit_all_flat.
+  assert (E : flat_map visited D = flat_map visited_raw D).
+  { apply flat_map_ext_in'. intros t Hin. apply visited_eq_raw. eapply (nodup_flat_in node_ids); eauto. }
+  rewrite E. apply visit_trees; assumption.
+Qed.
+
+(* ================================================================== pure side: the value trees against Dec/Post.v *)
+Definition mapv {A B} (g : A -> B) (d : pdict A) : pdict B := map (fun kv => (fst kv, g (snd kv))) d.
+
+Lemma mapv_set {A B} (g : A -> B) k v (d : pdict A) : mapv g (pd_set k v d) = pd_set k (g v) (mapv g d).
+Proof.
+  induction d as [|[k' v'] r IH]; cbn [pd_set mapv map fst snd]; [reflexivity|].
+  destruct (String.eqb k k'); cbn [map fst snd]; [reflexivity|]. f_equal. exact IH.
+Qed.
+Lemma mapv_get {A B} (g : A -> B) k (d : pdict A) : pd_get k (mapv g d) = option_map g (pd_get k d).
+Proof. induction d as [|[k' v'] r IH]; [reflexivity|]. cbn [mapv map fst snd pd_get]. destruct (String.eqb k k'); [reflexivity | exact IH]. Qed.
+
+Definition alias_pairs (f : list stmt) : list (string * dmodel) :=
+  flat_map (fun s => match s with SModelAlias n m => [(n, m)] | _ => [] end) f.
+
+Lemma aliases_fold_file : forall f acc,
+  aliases_fold (file_v f) (mapv (v_model_children enc_raw) acc) =
+  mapv (v_model_children enc_raw) (fold_left (fun a kv => pd_set (fst kv) (snd kv) a) (alias_pairs f) acc).
+Proof.
+  induction f as [|st r IH]; intros acc; [reflexivity|]. unfold file_v, alias_pairs in *. cbn [flat_map].
+  destruct st; cbn [app]; try apply IH.
+  unfold aliases_fold in *. cbn [fold_left fst snd].
+    change (vis_data "model_alias" (v_model_alias n m)) with true.
+    change (alias_entry_v (v_model_alias n m)) with (Some (n, v_model_children enc_raw m)). cbn iota. rewrite <- mapv_set. apply IH.
+Qed.
+
+Lemma model_aliases_of_fold f : model_aliases_of f = fold_left (fun a kv => pd_set (fst kv) (snd kv) a) (alias_pairs f) [].
+Proof. reflexivity. Qed.
+
+(* --- the Transformer on the trees of the file --- *)
+Definition expand_model (mal : pdict dmodel) (m : dmodel) : dmodel + herr :=
+  match m with
+  | MLabel l => match pd_get l mal with Some m' => inl m' | None => inr (HValueError l) end
+  | _ => inl m
+  end.
+Definition expand_line (mal : pdict dmodel) (d : dline) : dline + herr :=
+  match expand_model mal (d_model d) with
+  | inl m' => inl {| d_bf := d_bf d; d_fs := d_fs d; d_photos := d_photos d; d_model := m' |}
+  | inr e => inr e
+  end.
+Fixpoint mapH {A B} (f : A -> B + herr) (l : list A) : list B + herr :=
+  match l with
+  | [] => inl []
+  | x :: r => match f x with inr e => inr e | inl y => match mapH f r with inr e => inr e | inl ys => inl (y :: ys) end end
+  end.
+
+Lemma vtransform_list_id alv l : Forall (fun x => vtransform alv x = inl x) l -> vtransform_list alv l = inl l.
+Proof. induction 1 as [|x r Hx Hr IH]; [reflexivity|]. cbn [vtransform_list]. rewrite Hx, IH. reflexivity. Qed.
+
+Lemma vtransform_list_app alv a b :
+  vtransform_list alv (a ++ b) = match vtransform_list alv a with
+                                 | inr e => inr e
+                                 | inl a' => match vtransform_list alv b with inr e => inr e | inl b' => inl (a' ++ b')%list end
+                                 end.
+Proof.
+  induction a as [|x r IH]; cbn [app vtransform_list]; [destruct (vtransform_list alv b); reflexivity|].
+  destruct (vtransform alv x); [|reflexivity]. rewrite IH. destruct (vtransform_list alv r); [|reflexivity].
+  destruct (vtransform_list alv b); reflexivity.
+Qed.
+
+Lemma vtransform_value alv lit : vtransform alv (v_value lit) = inl (v_value lit).
+Proof. reflexivity. Qed.
+Lemma vtransform_particle alv n : vtransform alv (v_particle n) = inl (v_particle n).
+Proof. reflexivity. Qed.
+Lemma vtransform_enc alv p : vtransform alv (enc_raw p) = inl (enc_raw p).
+Proof. destruct p; reflexivity. Qed.
+
+Lemma vtransform_model mal m :
+  vtransform (mapv (v_model_children enc_raw) mal) (v_model enc_raw m) =
+  match expand_model mal m with inl m' => inl (v_model enc_raw m') | inr e => inr e end.
+Proof.
+  destruct m as [l|n [ps|]].
+  - unfold v_model. rewrite vtransform_node. cbn [v_model_children vtransform_list]. 
+    replace (vtransform (mapv (v_model_children enc_raw) mal) (VN "model_label" [v_tok "LABEL" l])) with (@inl vt herr (VN "model_label" [v_tok "LABEL" l])) by reflexivity.
+    replace (String.eqb "model" "model") with true by reflexivity. cbn [vtokstr vtokval v_tok]. rewrite mapv_get. cbn [expand_model].
+    destruct (pd_get l mal); reflexivity.
+  - unfold v_model. rewrite vtransform_node. cbn [v_model_children vtransform_list].
+    replace (vtransform (mapv (v_model_children enc_raw) mal) (v_tok "MODEL_NAME" n)) with (@inl vt herr (v_tok "MODEL_NAME" n)) by reflexivity.
+    rewrite vtransform_node. rewrite vtransform_list_id by (apply Forall_forall; intros x Hx; apply in_map_iff in Hx; destruct Hx as (p & <- & _); apply vtransform_enc).
+    replace (String.eqb "model_options" "model") with false by reflexivity. replace (String.eqb "model" "model") with true by reflexivity. reflexivity.
+  - reflexivity.
+Qed.
+
+Lemma vtransform_line mal d :
+  vtransform (mapv (v_model_children enc_raw) mal) (v_line enc_raw d) =
+  match expand_line mal d with inl d' => inl (v_line enc_raw d') | inr e => inr e end.
+Proof.
+  unfold v_line. rewrite vtransform_node. replace (String.eqb "decayline" "model") with false by reflexivity.
+  change (v_value (d_bf d) :: map v_particle (d_fs d) ++ (if d_photos d then [VN "photos" []] else []) ++ [v_model enc_raw (d_model d)])%list
+    with ([v_value (d_bf d)] ++ map v_particle (d_fs d) ++ (if d_photos d then [VN "photos" []] else []) ++ [v_model enc_raw (d_model d)])%list.
+  rewrite !vtransform_list_app. cbn [vtransform_list]. rewrite vtransform_value.
+  rewrite vtransform_list_id by (apply Forall_forall; intros x Hx; apply in_map_iff in Hx; destruct Hx as (p & <- & _); apply vtransform_particle).
+  assert (Hph : vtransform_list (mapv (v_model_children enc_raw) mal) (if d_photos d then [VN "photos" []] else []) = inl (if d_photos d then [VN "photos" []] else [])).
+  { destruct (d_photos d); reflexivity. }
+  rewrite Hph. rewrite vtransform_model. unfold expand_line. destruct (expand_model mal (d_model d)); reflexivity.
+Qed.
+
+Lemma vtransform_lines mal ls :
+  vtransform_list (mapv (v_model_children enc_raw) mal) (map (v_line enc_raw) ls) =
+  match mapH (expand_line mal) ls with inl ls' => inl (map (v_line enc_raw) ls') | inr e => inr e end.
+Proof.
+  induction ls as [|d r IH]; [reflexivity|]. cbn [map vtransform_list mapH]. rewrite vtransform_line.
+  destruct (expand_line mal d); [|reflexivity]. rewrite IH. destruct (mapH (expand_line mal) r); reflexivity.
+Qed.
+
+Lemma vtransform_decay mal m ls :
+  vtransform (mapv (v_model_children enc_raw) mal) (v_decay enc_raw m ls) =
+  match mapH (expand_line mal) ls with inl ls' => inl (v_decay enc_raw m ls') | inr e => inr e end.
+Proof.
+  unfold v_decay. rewrite vtransform_node. cbn [vtransform_list]. rewrite vtransform_particle, vtransform_lines.
+  replace (String.eqb "decay" "model") with false by reflexivity. destruct (mapH (expand_line mal) ls); reflexivity.
+Qed.
+
+(* --- the value visitor on the trees of the file --- *)
+Definition enc_res (defs : pdict Q) (p : param) : vt := vreplace defs (enc_raw p).
+
+Lemma vvisit_list_id defs l : Forall (fun x => vvisit defs x = x) l -> map (vvisit defs) l = l.
+Proof. induction 1 as [|x r Hx Hr IH]; [reflexivity|]. cbn [map]. rewrite Hx, IH. reflexivity. Qed.
+
+Lemma vvisit_model defs m : vvisit defs (v_model enc_raw m) = v_model (enc_res defs) m.
+Proof.
+  destruct m as [l|n [ps|]]; try reflexivity.
+  unfold v_model. cbn [v_model_children vvisit map v_tok]. replace (String.eqb "model_options" "model") with false by reflexivity.
+  cbn [map vvisit]. replace (String.eqb "model_options" "model_options") with true by reflexivity. rewrite map_map. reflexivity.
+Qed.
+
+Lemma vvisit_line defs d : vvisit defs (v_line enc_raw d) = v_line (enc_res defs) d.
+Proof.
+  unfold v_line. cbn [vvisit]. replace (String.eqb "model_options" "decayline") with false by reflexivity. f_equal.
+  cbn [map]. f_equal. rewrite !map_app. cbn [map]. rewrite vvisit_model. f_equal; [|f_equal].
+  - apply vvisit_list_id. apply Forall_forall. intros x Hx. apply in_map_iff in Hx. destruct Hx as (p & <- & _). reflexivity.
+  - destruct (d_photos d); reflexivity.
+Qed.
+
+Lemma vvisit_decay defs m ls : vvisit defs (v_decay enc_raw m ls) = v_decay (enc_res defs) m ls.
+Proof.
+  unfold v_decay. cbn [vvisit]. replace (String.eqb "model_options" "decay") with false by reflexivity. f_equal. cbn [map]. f_equal.
+  rewrite map_map. apply map_ext. intros d. apply vvisit_line.
+Qed.
+
+Definition param_ok (p : param) : bool := match p with PLit _ => true | PLabel (String _ _) => true | PLabel EmptyString => false end.
+Definition model_ok (m : dmodel) : bool := match m with MName _ (Some ps) => forallb param_ok ps | _ => true end.
+
+Lemma vok_model m : model_ok m = true -> vok (v_model enc_raw m) = true.
+Proof.
+  destruct m as [l|n [ps|]]; intros H; try reflexivity.
+  unfold v_model. cbn [v_model_children vok forallb v_tok]. replace (String.eqb "model_options" "model") with false by reflexivity.
+  cbn [forallb vok]. replace (String.eqb "model_options" "model_options") with true by reflexivity. rewrite andb_true_r.
+  cbn [model_ok] in H. rewrite forallb_forall in H. apply forallb_forall. intros x Hx. apply in_map_iff in Hx. destruct Hx as (p & <- & Hp).
+  specialize (H p Hp). destruct p as [lit|[|a s]]; try discriminate; reflexivity.
+Qed.
+
+Lemma vok_line d : model_ok (d_model d) = true -> vok (v_line enc_raw d) = true.
+Proof.
+  intros H. unfold v_line. cbn [vok]. replace (String.eqb "model_options" "decayline") with false by reflexivity.
+  apply forallb_forall. intros x [<-|Hx]; [reflexivity|]. apply in_app_or in Hx. destruct Hx as [Hx|Hx].
+  - apply in_map_iff in Hx. destruct Hx as (? & <- & _). reflexivity.
+  - apply in_app_or in Hx. destruct Hx as [Hx|[<-|[]]]; [|apply vok_model; exact H].
+    destruct (d_photos d); [destruct Hx as [<-|[]]; reflexivity | destruct Hx].
+Qed.
+
+Lemma vok_decay m ls : forallb (fun d => model_ok (d_model d)) ls = true -> vok (v_decay enc_raw m ls) = true.
+Proof.
+  intros H. unfold v_decay. cbn [vok]. replace (String.eqb "model_options" "decay") with false by reflexivity.
+  apply forallb_forall. intros x [<-|Hx]; [reflexivity|]. apply in_map_iff in Hx. destruct Hx as (d & <- & Hd). apply vok_line.
+  rewrite forallb_forall in H. apply H. exact Hd.
+Qed.
+
+(* --- reading the resolved trees: the lines of Dec/Post.v --- *)
+Lemma vread_param_res defs p : vread_param (enc_res defs p) = Some (resolve_param defs p).
+Proof.
+  destruct p as [lit|s]; [reflexivity|]. unfold enc_res. cbn [enc_raw v_tok vreplace]. unfold conv_label, resolve_param.
+  destruct s as [|c rest]; [reflexivity|]. destruct (is_c c "-"); [destruct (pd_get rest defs) | destruct (pd_get (String c rest) defs)]; reflexivity.
+Qed.
+
+Lemma mapO_all {A B} (f : A -> option B) (g : A -> B) l : (forall x, f x = Some (g x)) -> mapO f l = Some (map g l).
+Proof. intros H. induction l as [|x r IH]; [reflexivity|]. cbn [mapO map]. rewrite H, IH. reflexivity. Qed.
+
+Definition line_of (defs : pdict Q) (d : dline) (n : string) (opts : option (list param)) : line :=
+  {| l_bf := numq (d_bf d); l_fs := d_fs d; l_photos := d_photos d; l_model := n; l_params := option_map (map (resolve_param defs)) opts |}.
+
+Lemma filter_particles fs ph : (forall x, In x ph -> vis_data "particle" x = false) ->
+  filter (vis_data "particle") (map v_particle fs ++ ph) = map v_particle fs.
+Proof.
+  intros H. rewrite filter_app. replace (filter (vis_data "particle") ph) with (@nil vt).
+  - rewrite app_nil_r. induction fs as [|x r IH]; [reflexivity|]. cbn [map filter vis_data v_particle].
+    replace (String.eqb "particle" "particle") with true by reflexivity. rewrite IH. reflexivity.
+  - induction ph as [|x r IH]; [reflexivity|]. cbn [filter]. rewrite H by (left; reflexivity). apply IH. intros y Hy. apply H. right. exact Hy.
+Qed.
+
+Lemma vread_line_res defs d n opts : d_model d = MName n opts -> vread_line (v_line (enc_res defs) d) = Some (line_of defs d n opts).
+Proof.
+  intros Hm. unfold v_line, vread_line. cbn [vleafstr v_value vtokstr vtokval v_tok].
+  rewrite !rev_app_distr. cbn [rev app]. rewrite <- rev_app_distr, rev_involutive.
+  assert (Hph : forall x, In x (if d_photos d then [VN "photos" []] else []) -> vis_data "particle" x = false).
+  { destruct (d_photos d); intros x Hx; [destruct Hx as [<-|[]]; reflexivity | destruct Hx]. }
+  rewrite (filter_particles _ _ Hph). rewrite mapO_map. rewrite (mapO_all _ (fun x => x)) by reflexivity. rewrite map_id.
+  rewrite Hm. unfold v_model. destruct opts as [ps|]; cbn [v_model_children vread_model vtokstr vtokval v_tok].
+  - rewrite mapO_map. rewrite (mapO_all _ (resolve_param defs)) by (intros; apply vread_param_res). unfold line_of. cbn [option_map]. f_equal. f_equal.
+    rewrite existsb_app. destruct (d_photos d); cbn [existsb vis_data]; rewrite ?orb_false_r, ?orb_true_r;
+      (induction (d_fs d) as [|x r IH]; [reflexivity | cbn [map existsb vis_data v_particle]; replace (String.eqb "photos" "particle") with false by reflexivity; exact IH]).
+  - unfold line_of. cbn [option_map]. f_equal. f_equal.
+    rewrite existsb_app. destruct (d_photos d); cbn [existsb vis_data]; rewrite ?orb_false_r, ?orb_true_r;
+      (induction (d_fs d) as [|x r IH]; [reflexivity | cbn [map existsb vis_data v_particle]; replace (String.eqb "photos" "particle") with false by reflexivity; exact IH]).
+Qed.
+
+(* ================================================================== CDecay at object level *)
+Lemma visit_names_acc ccdb : forall ps d out,
+  fold_left (visit_particle ccdb) ps (d, out) =
+  (fst (visit_names ccdb d ps), (out ++ snd (visit_names ccdb d ps))%list).
+Proof.
+  unfold visit_names. induction ps as [|p r IH]; intros d out; cbn [fold_left].
+  - cbn [fst snd]. rewrite app_nil_r. reflexivity.
+  - unfold visit_particle at 2 4 6. rewrite (IH (pd_set p (cc_match ccdb d p) d) (out ++ [cc_match ccdb d p])%list).
+    rewrite (IH (pd_set p (cc_match ccdb d p) d) ([] ++ [cc_match ccdb d p])%list). cbn [fst snd app]. rewrite <- app_assoc. reflexivity.
+Qed.
+
+Lemma visit_names_cons ccdb d p r :
+  visit_names ccdb d (p :: r) =
+  (fst (visit_names ccdb (pd_set p (cc_match ccdb d p) d) r), cc_match ccdb d p :: snd (visit_names ccdb (pd_set p (cc_match ccdb d p) d) r)).
+Proof.
+  unfold visit_names at 1. cbn [fold_left]. unfold visit_particle at 2. rewrite visit_names_acc. reflexivity.
+Qed.
+
+(* the visitor over a list of distinct tokens holding the names ns *)
+Lemma cc_fold_spec ccdb : forall ids ns d h,
+  NoDup ids -> Forall2 (fun i n => i < length h /\ nth i h (TS "") = TS n) ids ns ->
+  exists h', fold_left (cc_visit ccdb) ids (d, h) = (fst (visit_names ccdb d ns), h') /\
+             Forall2 (fun i c => nth i h' (TS "") = TS c) ids (snd (visit_names ccdb d ns)) /\ frame ids h h'.
+Proof.
+  induction ids as [|i r IH]; intros ns d h Hnd HF; inversion HF as [|? n ? ns' [Hi Hn] HF']; subst.
+  - exists h. split; [reflexivity|]. split; [constructor | apply frame_refl].
+  - inversion Hnd as [|? ? Hni Hnd']; subst. cbn [fold_left]. unfold cc_visit at 2.
+    rewrite (nth_error_nth_some h i (TS "") Hi), Hn. rewrite visit_names_cons. cbn [fst snd].
+    set (c := cc_match ccdb d n). set (h1 := upd i (TS c) h).
+    destruct (IH ns' (pd_set n c d) h1 Hnd') as (h' & E & V & F).
+    { clear -HF' Hni. induction HF' as [|j m js ms [Hj Hm] _ IHf]; constructor.
+      - unfold h1. rewrite upd_length. split; [exact Hj|]. rewrite nth_upd_other; [exact Hm|]. intros ->. apply Hni. left. reflexivity.
+      - apply IHf. intros Hin. apply Hni. right. exact Hin. }
+    exists h'. split; [exact E|]. split.
+    + constructor; [|exact V]. destruct F as [_ F]. rewrite F by exact Hni. unfold h1. apply nth_upd_same. exact Hi.
+    + destruct F as [L F]. split; [rewrite L; unfold h1; apply upd_length|]. intros j Hj. rewrite F by (intros Hin; apply Hj; right; exact Hin).
+      unfold h1. apply nth_upd_other. intros ->. apply Hj. left. reflexivity.
+Qed.
+
+(* inversion of erasures *)
+Lemma erase_VN_inv h t d vs : erase h t = VN d vs -> exists i ch, t = OTree i d ch /\ map (erase h) ch = vs.
+Proof. destruct t as [i k|i d' ch]; simpl; intros H; inversion H; subst. eauto. Qed.
+Lemma erase_VT_inv h t k v : erase h t = VT k v -> exists i, t = OTok i k /\ nth i h (TS "") = v.
+Proof. destruct t as [i k'|i d' ch]; simpl; intros H; inversion H; subst. eauto. Qed.
+
+Lemma map_eq_app_inv {A B} (f : A -> B) l a b : map f l = (a ++ b)%list -> exists la lb, l = (la ++ lb)%list /\ map f la = a /\ map f lb = b.
+Proof.
+  revert l. induction a as [|x r IH]; intros l H.
+  - exists [], l. auto.
+  - destruct l as [|y l']; [discriminate|]. simpl in H. inversion H; subst. destruct (IH l' H2) as (la & lb & -> & Ha & Hb).
+    exists (y :: la), lb. simpl. rewrite Ha. auto.
+Qed.
+
+(* the particle tokens of a particle node list *)
+Definition ptoks (ps : list ot) : list nat := flat_map (fun c => if is_data "particle" c then match c with OTree _ _ (OTok i _ :: _) => [i] | _ => [] end else []) ps.
+
+Lemma ptoks_app a b : ptoks (a ++ b) = (ptoks a ++ ptoks b)%list.
+Proof. apply flat_map_app. Qed.
+
+Lemma ptoks_particles h ps ns : map (erase h) ps = map v_particle ns -> (forall p, In p ps -> inb h p) ->
+  ptoks ps = tids ps /\ Forall2 (fun i n => i < length h /\ nth i h (TS "") = TS n) (ptoks ps) ns.
+Proof.
+  revert ns. induction ps as [|p r IH]; intros [|n ns] H Hb; simpl in H; try discriminate; [split; [reflexivity | constructor]|].
+  inversion H as [[Hp Hr]]. destruct (erase_VN_inv _ _ _ _ Hp) as (i & ch & -> & Hch).
+  destruct ch as [|x [|? ?]]; simpl in Hch; try discriminate. inversion Hch as [Hx]. destruct (erase_VT_inv _ _ _ _ Hx) as (j & -> & Hj).
+  destruct (IH ns Hr) as [E F]; [intros q Hq; apply Hb; right; exact Hq|].
+  assert (P : ptoks (OTree i "particle" [OTok j "LABEL"] :: r) = j :: ptoks r) by reflexivity.
+  rewrite P, tids_cons. cbn [tok_ids flat_map app]. rewrite E. split; [reflexivity|]. constructor; [|rewrite <- E; exact F].
+  split; [apply (Hb _ (or_introl eq_refl)); simpl; auto | exact Hj].
+Qed.
+
+Lemma ptoks_none h ps : (forall p, In p ps -> vis_data "particle" (erase h p) = false) -> ptoks ps = [].
+Proof.
+  induction ps as [|p r IH]; intros H; [reflexivity|]. unfold ptoks in *. cbn [flat_map].
+  rewrite (is_data_erase "particle" h p), (H p (or_introl eq_refl)). cbn [app]. apply IH. intros q Hq. apply H. right. exact Hq.
+Qed.
+
+(* ------------------------------------------------------------------ the table operations of Dec/Post.v, generic in the line type *)
+Section Generic.
+Context {L : Type} (get_fs : L -> list string) (set_fs : L -> list string -> L).
+Definition gtable : Type := (string * list L)%type.
+
+Fixpoint g_find (m : string) (T : list gtable) : option (list L) :=
+  match T with [] => None | (m', ls) :: r => if String.eqb m m' then Some ls else g_find m r end.
+
+Definition g_add_copies (copies : pdict string) (T : list gtable) : list gtable :=
+  T ++ flat_map (fun kv => match g_find (snd kv) (rev T) with Some ls => [(fst kv, ls)] | None => [] end) copies.
+
+Definition g_conj_lines (ccdb : string -> string) (d : pdict string) (ls : list L) : pdict string * list L :=
+  fold_left (fun (acc : pdict string * list L) (l : L) =>
+               let '(d0, out) := acc in
+               let '(d0', fs') := visit_names ccdb d0 (get_fs l) in (d0', out ++ [set_fs l fs'])%list) ls (d, []).
+
+Definition g_conj_table (ccdb : string -> string) (d : pdict string) (t : gtable) : pdict string * gtable :=
+  let '(m, ls) := t in
+  let '(d1, ls') := g_conj_lines ccdb d ls in
+  let '(d2, ms) := visit_names ccdb d1 [m] in
+  (d2, (hd m ms, ls')).
+
+Definition g_cc_sources (ccdb : string -> string) (ccdefs : pdict string) (cdecays : list string) (T : list gtable) : list gtable :=
+  flat_map (fun X => let name := cc_match ccdb ccdefs X in
+                     match g_find name (rev T) with Some ls => [(name, ls)] | None => [] end)
+           (fold_left (fun l d => remove_one d l) (filter (fun n => smem n (map fst T)) cdecays) cdecays).
+
+Definition g_cstep (ccdb : string -> string) (selfconj : string -> option bool)
+                   (acc : pdict string * list gtable) (t : gtable) : pdict string * list gtable :=
+  let '(d, out) := acc in
+  match selfconj (fst t) with
+  | Some true => (d, out ++ [t])%list
+  | _ => match d with
+         | [] => let '(_, t') := g_conj_table ccdb [] t in (d, out ++ [t'])%list
+         | _ => let '(d', t') := g_conj_table ccdb d t in (d', out ++ [t'])%list
+         end
+  end.
+
+Definition g_add_cc (ccdb : string -> string) (selfconj : string -> option bool)
+                    (cdecays : list string) (ccdefs : pdict string) (T : list gtable) : list gtable :=
+  match fold_left (fun l d => remove_one d l) (filter (fun n => smem n (map fst T)) cdecays) cdecays with
+  | [] => T
+  | _ => (T ++ snd (fold_left (g_cstep ccdb selfconj) (g_cc_sources ccdb ccdefs cdecays T) (ccdefs, [])))%list
+  end.
+End Generic.
+
+(* at the line type of Dec/Post.v these ARE its definitions *)
+Definition set_lfs (l : line) (fs : list string) : line :=
+  {| l_bf := l_bf l; l_fs := fs; l_photos := l_photos l; l_model := l_model l; l_params := l_params l |}.
+Definition set_dfs (d : dline) (fs : list string) : dline :=
+  {| d_bf := d_bf d; d_fs := fs; d_photos := d_photos d; d_model := d_model d |}.
+
+Lemma g_find_line m T : g_find (L:=line) m T = find_table m T.
+Proof. induction T as [|[m' ls] r IH]; [reflexivity|]. simpl. rewrite IH. reflexivity. Qed.
+Lemma g_add_copies_line copies T : g_add_copies (L:=line) copies T = add_copies copies T.
+Proof.
+  unfold g_add_copies, add_copies. rewrite (flat_map_ext_in' _ (fun kv => match find_table (snd kv) (rev T) with Some ls => [(fst kv, ls)] | None => [] end)); [reflexivity|].
+  intros kv _. rewrite g_find_line. reflexivity.
+Qed.
+Lemma g_conj_table_line ccdb d t : g_conj_table l_fs set_lfs ccdb d t = conj_table ccdb d t.
+Proof. reflexivity. Qed.
+Lemma g_add_cc_line ccdb sc cdecays ccdefs T : g_add_cc l_fs set_lfs ccdb sc cdecays ccdefs T = add_cc ccdb sc cdecays ccdefs T.
+Proof.
+  assert (Hs : g_cc_sources (L:=line) ccdb ccdefs cdecays T = cc_sources ccdb ccdefs cdecays T).
+  { unfold g_cc_sources, cc_sources, cc_names, find_table_last. apply flat_map_ext_in'. intros X _. rewrite g_find_line. reflexivity. }
+  unfold g_add_cc, add_cc, cc_names. rewrite Hs. reflexivity.
+Qed.
+
+Lemma g_conj_lines_acc {L} (get_fs : L -> list string) set_fs ccdb : forall ls d out,
+  fold_left (fun (acc : pdict string * list L) (l : L) =>
+               let '(d0, out) := acc in
+               let '(d0', fs') := visit_names ccdb d0 (get_fs l) in (d0', out ++ [set_fs l fs'])%list) ls (d, out) =
+  (fst (g_conj_lines get_fs set_fs ccdb d ls), (out ++ snd (g_conj_lines get_fs set_fs ccdb d ls))%list).
+Proof.
+  unfold g_conj_lines. induction ls as [|l r IH]; intros d out; cbn [fold_left].
+  - cbn [fst snd]. rewrite app_nil_r. reflexivity.
+  - destruct (visit_names ccdb d (get_fs l)) as [d1 fs'] eqn:Ev. rewrite (IH d1 (out ++ [set_fs l fs'])%list).
+    rewrite (IH d1 ([] ++ [set_fs l fs'])%list). cbn [fst snd app]. rewrite <- app_assoc. reflexivity.
+Qed.
+Lemma g_conj_lines_cons {L} (get_fs : L -> list string) set_fs ccdb d l r :
+  g_conj_lines get_fs set_fs ccdb d (l :: r) =
+  (fst (g_conj_lines get_fs set_fs ccdb (fst (visit_names ccdb d (get_fs l))) r),
+   set_fs l (snd (visit_names ccdb d (get_fs l))) :: snd (g_conj_lines get_fs set_fs ccdb (fst (visit_names ccdb d (get_fs l))) r)).
+Proof.
+  unfold g_conj_lines at 1. cbn [fold_left]. destruct (visit_names ccdb d (get_fs l)) as [d1 fs'] eqn:Ev. rewrite g_conj_lines_acc. reflexivity.
+Qed.
+
+Lemma frame_mono a b h h' : frame a h h' -> (forall i, In i a -> In i b) -> frame b h h'.
+Proof. intros [L F] S. split; [exact L|]. intros j Hj. apply F. intros Hin. apply Hj, S, Hin. Qed.
+
+Lemma particles_rewritten h h' : forall ps ns out, map (erase h) ps = map v_particle ns ->
+  Forall2 (fun i c => nth i h' (TS "") = TS c) (tids ps) out -> map (erase h') ps = map v_particle out.
+Proof.
+  induction ps as [|p r IH]; intros [|n ns] out H HF; simpl in H; try discriminate.
+  - inversion HF; subst. reflexivity.
+  - inversion H as [[Hp Hr]]. destruct (erase_VN_inv _ _ _ _ Hp) as (i & ch & -> & Hch).
+    destruct ch as [|x [|? ?]]; simpl in Hch; try discriminate. inversion Hch as [Hx]. destruct (erase_VT_inv _ _ _ _ Hx) as (j & -> & Hj).
+    rewrite tids_cons in HF. cbn [tok_ids flat_map app] in HF. inversion HF as [|? c ? out' Hc HF']; subst.
+    cbn [map erase]. rewrite Hc. rewrite (IH ns out' Hr HF'). reflexivity.
+Qed.
+
+Lemma cc_line ccdb enc dl : forall l d h,
+  erase h l = v_line enc dl -> NoDup (tok_ids l) -> inb h l ->
+  exists h', fold_left (cc_visit ccdb) (ptoks (children_of l)) (d, h) = (fst (visit_names ccdb d (d_fs dl)), h') /\
+             erase h' l = v_line enc (set_dfs dl (snd (visit_names ccdb d (d_fs dl)))) /\ frame (tok_ids l) h h'.
+Proof.
+  intros l d h He Hnd Hb. unfold v_line in He. destruct (erase_VN_inv _ _ _ _ He) as (i & ch & -> & Hch). clear He.
+  destruct ch as [|v0 rest]; [discriminate|]. cbn [map] in Hch. inversion Hch as [[Hv Hrest]]. clear Hch.
+  destruct (map_eq_app_inv _ _ _ _ Hrest) as (ps & tl & -> & Hps & Htl). clear Hrest.
+  cbn [children_of]. change (v0 :: ps ++ tl)%list with ([v0] ++ ps ++ tl)%list. rewrite !ptoks_app.
+  assert (P0 : ptoks [v0] = []).
+  { apply (ptoks_none h). intros p [<-|[]]. rewrite Hv. reflexivity. }
+  assert (Pt : ptoks tl = []).
+  { apply (ptoks_none h). intros p Hp. assert (Hin : In (erase h p) (map (erase h) tl)) by (apply in_map; exact Hp). rewrite Htl in Hin.
+    apply in_app_or in Hin. destruct Hin as [Hin|[<-|[]]]; [|reflexivity]. destruct (d_photos dl); [destruct Hin as [<-|[]]; reflexivity | destruct Hin]. }
+  rewrite P0, Pt, app_nil_r. cbn [app].
+  assert (Hbp : forall p, In p ps -> inb h p).
+  { intros p Hp. eapply inb_child; [exact Hb|]. right. apply in_or_app. left. exact Hp. }
+  destruct (ptoks_particles h ps (d_fs dl) Hps Hbp) as [Ep Fp]. rewrite Ep in *.
+  simpl in Hnd. fold (tids (ps ++ tl)) in Hnd. rewrite tids_app in Hnd.
+  assert (Np : NoDup (tids ps)) by (eapply NoDup_app_l; eapply NoDup_app_r; exact Hnd).
+  destruct (cc_fold_spec ccdb (tids ps) (d_fs dl) d h Np Fp) as (h' & E & V & F).
+  exists h'. split; [exact E|]. split.
+  - cbn [erase map]. unfold v_line. cbn [d_bf d_fs d_photos d_model set_dfs]. f_equal. rewrite !map_app. f_equal; [|f_equal].
+    + rewrite <- Hv. eapply frame_erase; [exact F|]. intros a Ha Hc. eapply NoDup_app_disj; [exact Hnd | exact Ha | apply in_or_app; left; exact Hc].
+    + eapply particles_rewritten; eauto.
+    + rewrite <- Htl. apply map_ext_in. intros x Hx. eapply frame_erase; [exact F|]. intros a Ha Hc.
+      apply NoDup_app_r in Hnd. eapply NoDup_app_disj; [exact Hnd | exact Hc |]. unfold tids. apply in_flat_map. exists x. auto.
+  - eapply frame_mono; [exact F|]. intros a Ha. simpl. fold (tids (ps ++ tl)). rewrite tids_app. apply in_or_app. right. apply in_or_app. left. exact Ha.
+Qed.
+
+Definition vd {enc : param -> vt} (t : string * list dline) : vt := v_decay enc (fst t) (snd t).
+
+Lemma cc_tree ccdb enc m ls : forall t d h,
+  erase h t = v_decay enc m ls -> NoDup (tok_ids t) -> inb h t ->
+  exists h', fold_left (cc_visit ccdb) (particle_toks t) (d, h) = (fst (g_conj_table d_fs set_dfs ccdb d (m, ls)), h') /\
+             erase h' t = @vd enc (snd (g_conj_table d_fs set_dfs ccdb d (m, ls))) /\ frame (tok_ids t) h h'.
+Proof.
+  intros t d h He Hnd Hb. unfold v_decay in He. destruct (erase_VN_inv _ _ _ _ He) as (i & ch & -> & Hch). clear He.
+  destruct ch as [|p lines]; [discriminate|]. cbn [map] in Hch. inversion Hch as [[Hp Hl]]. clear Hch.
+  destruct (erase_VN_inv _ _ _ _ Hp) as (ip & pch & -> & Hpch). destruct pch as [|x [|? ?]]; simpl in Hpch; try discriminate.
+  inversion Hpch as [Hx]. destruct (erase_VT_inv _ _ _ _ Hx) as (j & -> & Hj). clear Hpch Hx Hp.
+  change (particle_toks (OTree i "decay" (OTree ip "particle" [OTok j "LABEL"] :: lines))) with (flat_map (fun l => ptoks (children_of l)) lines ++ [j])%list.
+  simpl in Hnd. inversion Hnd as [|? ? Hnj Hndl]; subst. fold (tids lines) in Hnj, Hndl.
+  assert (Hjb : j < length h) by (apply Hb; simpl; auto).
+  (* the lines *)
+  assert (HL : forall lines ls d h, map (erase h) lines = map (v_line enc) ls -> NoDup (tids lines) -> (forall l, In l lines -> inb h l) ->
+               exists h', fold_left (cc_visit ccdb) (flat_map (fun l => ptoks (children_of l)) lines) (d, h) = (fst (g_conj_lines d_fs set_dfs ccdb d ls), h') /\
+                          map (erase h') lines = map (v_line enc) (snd (g_conj_lines d_fs set_dfs ccdb d ls)) /\ frame (tids lines) h h').
+  { clear. induction lines as [|l r IH]; intros [|dl ls] d h H Hnd Hb; simpl in H; try discriminate.
+    - exists h. split; [reflexivity|]. split; [reflexivity | apply frame_refl].
+    - inversion H as [[Hl Hr]]. rewrite tids_cons in Hnd.
+      destruct (cc_line ccdb enc dl l d h Hl (NoDup_app_l _ _ Hnd) (Hb l (or_introl eq_refl))) as (h1 & E1 & V1 & F1).
+      assert (Er : map (erase h1) r = map (erase h) r).
+      { apply map_ext_in. intros y Hy. eapply frame_erase; [exact F1|]. intros a Ha Hc. eapply NoDup_app_disj; [exact Hnd | exact Hc|]. unfold tids. apply in_flat_map. exists y. auto. }
+      destruct (IH ls (fst (visit_names ccdb d (d_fs dl))) h1) as (h2 & E2 & V2 & F2).
+      + rewrite Er. exact Hr.
+      + eapply NoDup_app_r; eauto.
+      + intros y Hy a Ha. destruct F1 as [L _]. rewrite L. apply (Hb y (or_intror Hy)). exact Ha.
+      + exists h2. rewrite g_conj_lines_cons. cbn [fst snd]. split; [cbn [flat_map]; rewrite fold_left_app, E1; exact E2|]. split.
+        * cbn [map]. f_equal; [|exact V2]. rewrite <- V1. eapply frame_erase; [exact F2|]. intros a Ha Hc. eapply NoDup_app_disj; [exact Hnd | exact Ha | exact Hc].
+        * rewrite tids_cons. eapply frame_trans; eauto. }
+  destruct (HL lines ls d h Hl Hndl) as (h1 & E1 & V1 & F1); [intros l Hl'; eapply inb_child; [exact Hb | right; exact Hl']|].
+  (* the mother *)
+  unfold g_conj_table. fold (g_conj_lines d_fs set_dfs ccdb d ls).
+  destruct (g_conj_lines d_fs set_dfs ccdb d ls) as [d1 ls'] eqn:Ecl. cbn [fst snd] in E1, V1.
+  rewrite fold_left_app, E1. cbn [fold_left]. unfold cc_visit.
+  assert (Hj1 : nth j h1 (TS "") = TS m) by (destruct F1 as [_ F]; rewrite F by exact Hnj; exact Hj).
+  assert (Hjb1 : j < length h1) by (destruct F1 as [L _]; rewrite L; exact Hjb).
+  rewrite (nth_error_nth_some h1 j (TS "") Hjb1), Hj1. rewrite visit_names_cons. cbn [fst snd hd]. unfold visit_names. cbn [fold_left fst snd].
+  eexists. split; [reflexivity|]. split.
+  - cbn [erase map]. rewrite nth_upd_same by exact Hjb1. unfold vd, v_decay, v_particle, v_tok. cbn [fst snd]. f_equal. f_equal.
+    rewrite <- V1. apply map_ext_in. intros y Hy. apply erase_ext. intros a Ha. apply nth_upd_other. intros ->. apply Hnj. unfold tids. apply in_flat_map. exists y. auto.
+  - split; [rewrite upd_length; apply F1|]. intros a Ha. rewrite nth_upd_other by (intros ->; apply Ha; simpl; auto).
+    destruct F1 as [_ F]. apply F. intros Hin. apply Ha. simpl. right. exact Hin.
 Qed.
